@@ -234,6 +234,10 @@ pub enum Op {
     ExtendFromSlice(u32),
     MakeContiguous,
     Drain(RangeSpec, Vec<Step>, End),
+    /// `drain` / `range_mut` / `range` (selected by the last number) with a RangeBounds value whose answers change
+    /// between calls: mode 0 answers (Unbounded, Unbounded) first and the real bounds afterwards, mode 1 the other
+    /// way round, mode 2 alternates.  Any consistent reading is acceptable; what must hold is validity.
+    ShiftyRange(RangeSpec, u8, u8),
     /// clone_from a same-capacity source built at layout (start, len)
     CloneFrom(u32, u32),
     /// replace the element at a position through a mutable accessor
@@ -298,6 +302,7 @@ impl Op {
             Op::MakeContiguous => "make_contiguous",
             Op::Drain(_, _, End::Drop) => "drain",
             Op::Drain(_, _, End::Forget) => "drain_forget",
+            Op::ShiftyRange(..) => "shifty_range",
             Op::CloneFrom(..) => "clone_from",
             Op::Set(..) => "set_via",
             Op::Mutate(..) => "mutate_via",
@@ -486,6 +491,7 @@ pub fn render_op(op: &Op) -> String {
         Op::Unzip(n, h) => format!("unzip({n},{h:?})"),
         Op::ExtendFromSlice(n) => format!("extend_from_slice(len {n})"),
         Op::Drain(r, st, e) => format!("drain({r})[{}]{}", render_steps(st), if *e == End::Forget { " forget" } else { " drop" }),
+        Op::ShiftyRange(r, mode, which) => format!("{}(bounds that change between calls: mode {mode}, real bounds {r})", ["drain", "range_mut", "range"][*which as usize % 3]),
         Op::CloneFrom(s, l) => format!("clone_from(src start={s} len={l})"),
         Op::Set(a, i) => format!("set({a:?},{i})"),
         Op::Mutate(a, i) => format!("mutate({a:?},{i})"),
